@@ -25,6 +25,10 @@ def handle (_ : Unit) (toks : List Tok) : Unit × String :=
         let sg ← graphOf sn se
         let o ← (← out.list?).mapM ints?
         pure (answerSym (← graphOf gn ge) sg (o.map (totalOf sg)))
+    | [Tok.str "subiso", gn, ge, sn, se] => do
+        pure (answerSubIso (← graphOf gn ge) (← graphOf sn se))
+    | [Tok.str "isiso", gn, ge, sn, se] => do
+        pure (answerIsIso (← graphOf gn ge) (← graphOf sn se))
     | [Tok.str "lcs", gn, ge, sn, se] => do
         pure (answerLcs (← graphOf gn ge) (← graphOf sn se))
     | [Tok.str "lcssym", gn, ge, sn, se, out] => do
